@@ -525,7 +525,18 @@ package gtfs
 // ParseRealtime (C04, C06, C07, C18; C02 for the header timestamp)
 
 // the per-parse state of the bundled extensions is well formed (only the NYCT alerts extension has any)
-//@ pure func extOK(x extensions.Extension) bool = x != nil && (isType(x, "extensions/nyctalerts.extension") ==> groupsOK(asType(x, "extensions/nyctalerts.extension")))
+//@ pure func extOK(x extensions.Extension) bool = x != nil && (isType(x, "extensions/nyctalerts.extension") ==> groupsOK(asType(x, "extensions/nyctalerts.extension")) && fresh(asType(x, "extensions/nyctalerts.extension").elevatorAlerts) && (forall g string :: has(asType(x, "extensions/nyctalerts.extension").elevatorAlerts, g) ==> fresh(asType(x, "extensions/nyctalerts.extension").elevatorAlerts[g])))
+
+//@ func ParseRealtime$1
+//@   props C05 C07
+//@   requires 0 <= i && i < len(result.Trips) && 0 <= j && j < len(result.Trips)
+//@   ensures ret == result.Trips[i].ID.Less(result.Trips[j].ID)
+//@   assigns nothing
+
+//@ func ParseRealtime$2
+//@   props C05 C06
+//@   requires 0 <= i && i < len(result.Vehicles) && 0 <= j && j < len(result.Vehicles) && result.Vehicles[i].ID != nil && result.Vehicles[j].ID != nil
+//@   assigns nothing
 
 //@ func ParseRealtime
 //@   props C02 C04 C05 C06 C07 C12 C18
@@ -534,3 +545,21 @@ package gtfs
 //@   ensures [error-iff-not-protobuf] result.1 == nil <==> pbOK(bytesOf(content))
 //@   ensures [fresh-result] result.0 != nil ==> fresh(result.0)
 //@   assigns nothing
+//@   loop 1 invariant [ctx] opts != nil && extOK(opts.Extension) && feedMessage != nil && fresh(feedMessage) && fresh(shouldSkip) && len(shouldSkip) == len(feedMessage.Entity) && feedMessage.Entity == pre(feedMessage.Entity)
+//@   loop 1 invariant [alert-texts-fresh] forall k int :: 0 <= k && k < len(feedMessage.Entity) ==> feedMessage.Entity[k].Alert == nil || feedMessage.Entity[k].Alert.DescriptionText == nil || (fresh(feedMessage.Entity[k].Alert.DescriptionText) && fresh(feedMessage.Entity[k].Alert.DescriptionText.Translation))
+//@   loop 2 invariant [ctx] opts != nil && extOK(opts.Extension) && feedMessage != nil && fresh(feedMessage) && len(shouldSkip) == len(feedMessage.Entity) && feedMessage.Entity == pre(feedMessage.Entity) && fresh(result.Alerts) && len(result.Trips) == 0 && cap(result.Trips) == 0 && len(result.Vehicles) == 0 && cap(result.Vehicles) == 0
+//@   loop 2 invariant [maps] tripsById != nil && vehiclesByID != nil && tripIDToVehicleID != nil && vehicleIDToTripID != nil && tripIDToVehicleWithNoID != nil && fresh(tripsById) && fresh(vehiclesByID) && fresh(tripIDToVehicleID) && fresh(vehicleIDToTripID) && fresh(tripIDToVehicleWithNoID) && fresh(vehiclesWithNoID)
+//@   loop 2 invariant [trips-on-heap] forall t TripID :: has(tripsById, t) ==> tripsById[t] != nil && fresh(tripsById[t])
+//@   loop 2 invariant [vehicles-on-heap] forall v VehicleID :: has(vehiclesByID, v) ==> vehiclesByID[v] != nil && fresh(vehiclesByID[v]) && vehiclesByID[v].ID != nil
+//@   loop 2 invariant [idless-on-heap] forall k int :: 0 <= k && k < len(vehiclesWithNoID) ==> vehiclesWithNoID[k] != nil && fresh(vehiclesWithNoID[k])
+//@   loop 2 invariant [idless-links] forall t TripID :: has(tripIDToVehicleWithNoID, t) ==> has(tripsById, t) && tripIDToVehicleWithNoID[t] != nil && fresh(tripIDToVehicleWithNoID[t])
+//@   loop 3 invariant [ctx] opts != nil && extOK(opts.Extension) && feedMessage != nil && fresh(result.Alerts) && tripsById != nil && fresh(tripsById) && len(result.Trips) == 0 && cap(result.Trips) == 0 && len(result.Vehicles) == 0 && cap(result.Vehicles) == 0
+//@   loop 3 invariant [trips-on-heap] forall t TripID :: has(tripsById, t) ==> tripsById[t] != nil && fresh(tripsById[t])
+//@   loop 3 invariant [idless-links] forall t TripID :: has(tripIDToVehicleWithNoID, t) ==> has(tripsById, t) && tripIDToVehicleWithNoID[t] != nil && fresh(tripIDToVehicleWithNoID[t])
+//@   loop 4 invariant [empty-lists] len(result.Trips) == 0 && cap(result.Trips) == 0 && len(result.Vehicles) == 0 && cap(result.Vehicles) == 0
+//@   loop 4 invariant [trips-on-heap] forall t TripID :: has(tripsById, t) ==> tripsById[t] != nil && fresh(tripsById[t])
+//@   loop 4 invariant [idless-links] forall t TripID :: has(tripIDToVehicleWithNoID, t) ==> has(tripsById, t) && tripIDToVehicleWithNoID[t] != nil && fresh(tripIDToVehicleWithNoID[t])
+//@   loop 5 invariant [trips-on-heap] (forall t TripID :: has(tripsById, t) ==> tripsById[t] != nil && fresh(tripsById[t])) && fresh(result.Trips) && len(result.Vehicles) == 0 && cap(result.Vehicles) == 0
+//@   loop 6 invariant [vehicles-on-heap] (forall v VehicleID :: has(vehiclesByID, v) ==> vehiclesByID[v] != nil && fresh(vehiclesByID[v]) && vehiclesByID[v].ID != nil) && fresh(result.Vehicles)
+//@   loop 6 invariant [ids-present] forall k int :: 0 <= k && k < len(result.Vehicles) ==> result.Vehicles[k].ID != nil
+//@   loop 7 invariant [ctx] fresh(result.Vehicles) && (forall k int :: 0 <= k && k < len(vehiclesWithNoID) ==> vehiclesWithNoID[k] != nil)
